@@ -2,7 +2,7 @@
    any device observes.  Tick-level simulation between the nested model and the inlined one. *)
 From TV Require Import Base Model.Wiring Model.Ticker Model.Component Model.Sim Model.SimTime Model.Inline
   Proofs.WiringP Proofs.TickerP Proofs.ComponentP Proofs.SimP Proofs.FlattenP Proofs.NonInterfP
-  Proofs.LatestP Proofs.ExtentP Proofs.FrameP Proofs.AgreeP Proofs.EqvP Proofs.ParDevP Proofs.EqvCongP.
+  Proofs.LatestP Proofs.ExtentP Proofs.FrameP Proofs.AgreeP Proofs.EqvP Proofs.ParDevP Proofs.EqvCongP Proofs.FuelP.
 Open Scope Z_scope.
 
 Section Wires.
@@ -55,11 +55,17 @@ Definition kd_of (cfg : config) (x : comp) : ckind :=
   match lookup x (l_order (level_of cfg top)) with Some k => k | None => KDev end.
 Definition dk (cfg : config) (x : comp) : comp * ckind := (x, kd_of cfg x).
 
+(* the kind of a component of the level lvc, read off the configuration *)
+Definition kd_in (cfg : config) (lvc : positive) (x : comp) : ckind :=
+  match lookup x (l_order (level_of cfg lvc)) with Some k => k | None => KDev end.
+Definition dki (cfg : config) (lvc : positive) (x : comp) : comp * ckind := (x, kd_in cfg lvc x).
+
 (* the configurations covered: a top level of devices and system simulations (of any depth) around
-   one system simulation c of devices; the sibling system simulations live in their own subtrees *)
+   one system simulation c, whose own level holds devices and system simulations (of any depth);
+   all the other system simulations live in their own subtrees *)
 Record shape (cfg : config) (c : comp) (lvc : positive) (pre inn post : list comp) : Prop := {
   sh_top : l_order (level_of cfg top) = map (dk cfg) pre ++ (c, KSys lvc) :: map (dk cfg) post;
-  sh_in : l_order (level_of cfg lvc) = map dv inn;
+  sh_in : l_order (level_of cfg lvc) = map (dki cfg lvc) inn;
   sh_nodup : NoDup (c :: ext_id :: exp_id :: pre ++ inn ++ post);
   sh_lv : lvc <> top;
   sh_ss1 : single_source (l_conns (level_of cfg top));
@@ -70,17 +76,24 @@ Record shape (cfg : config) (c : comp) (lvc : positive) (pre inn post : list com
             In u (ext_id :: inn) /\ In e (exp_id :: inn) /\ ~ (u = ext_id /\ e = exp_id)
 }.
 
-(* the sibling system simulations (top-level components of kind KSys) live in subtrees of their own,
-   apart from the top level, from the level of c and from all the devices named in the shape; fuel g *)
-Definition sib_ok (cfg : config) (g : nat) (c : comp) (lvc : positive) (pre inn post : list comp) : Prop :=
-  forall y ly, In y (pre ++ post) -> kd_of cfg y = KSys ly ->
+(* the other system simulations: y is a sibling of c at the top level (its subtree is run with fuel
+   S f on both sides) or a system simulation inside c (run with fuel f by the nested scheduler of c) *)
+Definition issys (cfg : config) (f : nat) (lvc : positive) (pre inn post : list comp) (y : comp) (ly : positive) (g : nat) : Prop :=
+  (In y (pre ++ post) /\ kd_of cfg y = KSys ly /\ g = S f) \/ (In y inn /\ kd_in cfg lvc y = KSys ly /\ g = f).
+
+(* they live in subtrees of their own, apart from the top level, from the level of c and from all the
+   components named in the shape; the subtrees of the inner ones are not cut off by the fuel *)
+Definition sib_ok (cfg : config) (f : nat) (c : comp) (lvc : positive) (pre inn post : list comp) : Prop :=
+  forall y ly g, issys cfg f lvc pre inn post y ly g ->
     ~ In top (levels_below cfg g ly) /\ ~ In lvc (levels_below cfg g ly) /\
     (forall z, In z (devices_below cfg g ly) -> ~ In z (pre ++ inn ++ post) /\ z <> c) /\
-    (forall l, In l (levels_below cfg g ly) -> single_source (l_conns (level_of cfg l))).
+    (forall l, In l (levels_below cfg g ly) -> single_source (l_conns (level_of cfg l))) /\
+    (g = f -> deep_enough cfg f ly).
 
-Lemma sib_ok_devices cfg g c lvc pre inn post :
-  (forall y, In y (pre ++ post) -> kd_of cfg y = KDev) -> sib_ok cfg g c lvc pre inn post.
-Proof. intros H y ly Hy Hk. rewrite (H y Hy) in Hk. discriminate. Qed.
+Lemma sib_ok_devices cfg f c lvc pre inn post :
+  (forall y, In y (pre ++ post) -> kd_of cfg y = KDev) -> (forall y, In y inn -> kd_in cfg lvc y = KDev) ->
+  sib_ok cfg f c lvc pre inn post.
+Proof. intros H H2 y ly g [[Hy [Hk _]]|[Hy [Hk _]]]; [rewrite (H y Hy) in Hk | rewrite (H2 y Hy) in Hk]; discriminate. Qed.
 
 Section Shape.
 Variable cfg : config.
@@ -239,7 +252,7 @@ Hypothesis Hdev_nd : forall c n t i, NoDup (keys (fst (devf c n t i))).
 Hypothesis Hdev_ext : forall c n t i i', NoDup (keys i) -> NoDup (keys i') -> eqv i i' -> devf c n t i = devf c n t i'.
 Variable time : Z.
 Variable f : nat.            (* the inner functions run with fuel S f *)
-Hypothesis Hsib : sib_ok cfg (S f) c lvc pre inn post.
+Hypothesis Hsib : sib_ok cfg f c lvc pre inn post.
 Let C1 := l_conns (level_of cfg top).
 Let Cc := l_conns (level_of cfg lvc).
 Let CF := Cf cfg c lvc.
@@ -266,10 +279,10 @@ Definition Rnc (aN : core) : Prop := forall o y q, In (c, o, y, q) C1 -> pd aN y
 Definition Rpre (aN aF : core) : Prop :=
   forall d, In d inn -> forall q' v, pd aF d q' = Some v <-> exists q, In (ext_id, q, d, q') Cc /\ pd aN c q = Some v.
 
-(* the sibling system simulations: their subtrees are in related states *)
+(* the other system simulations (siblings of c and those inside c): their subtrees are in related states *)
 Definition SUB (sN sF : sstate) : Prop :=
-  forall y ly, In y outs_ -> kd_of cfg y = KSys ly ->
-    SR (devices_below cfg (S f) ly) (levels_below cfg (S f) ly) sN sF.
+  forall y ly g, issys cfg f lvc pre inn post y ly g ->
+    SR (devices_below cfg g ly) (levels_below cfg g ly) sN sF.
 
 (* the state of the nested schedulers that steps of top-level devices do not touch *)
 Definition frameN (aN aN' : core) : Prop :=
@@ -396,8 +409,8 @@ Proof.
     + rewrite (de_wake _ _ _ _ _ _ _ _ _ HeN). destruct ca as [w|]; [|reflexivity]. apply lookup_upd_other. intros E. apply Hxc. symmetry. exact E.
     + apply (de_int _ _ _ _ _ _ _ _ _ HeN).
     + apply (de_ticked _ _ _ _ _ _ _ _ _ HeN).
-    + intros HS y ly Hy Hk. destruct (HS y ly Hy Hk) as [A B].
-      destruct (Hsib y ly Hy Hk) as [Htop [_ [HD _]]].
+    + intros HS y ly g Hy. destruct (HS y ly g Hy) as [A B].
+      destruct (Hsib y ly g Hy) as [Htop [_ [HD _]]].
       split.
       * intros z Hz. assert (Hne : z <> x) by (intros E; subst z; apply (proj1 (HD x Hz)); apply in_outs_all; exact Hx).
         unfold drel. rewrite (de_other _ _ _ _ _ _ _ _ _ HeN z Hne), (de_other _ _ _ _ _ _ _ _ _ HeF z Hne),
@@ -439,7 +452,8 @@ Proof.
   destruct (outsider_facts cfg c lvc pre inn post Hsh x Hx) as [Hxi [Hxc [Hxe Hxx]]].
   pose proof (sh_ss1 _ _ _ _ _ _ Hsh) as S1. fold C1 in S1.
   pose proof (Cf_single_source cfg c lvc pre inn post Hsh) as SF. fold CF in SF.
-  destruct (Hsib x ly Hx Hk) as [Htop [Hlvc [HD Hssl]]].
+  assert (Hxs : issys cfg f lvc pre inn post x ly (S f)) by (left; split; [exact Hx | split; [exact Hk | reflexivity]]).
+  destruct (Hsib x ly (S f) Hxs) as [Htop [Hlvc [HD [Hssl _]]]].
   set (D := devices_below cfg (S f) ly) in *. set (L := levels_below cfg (S f) ly) in *.
   assert (Hinp : eqv (get_d x (co_in aN)) (get_d x (co_in aF))) by (apply eqv_of_pd; apply (ro_pend _ _ HR x Hx)).
   unfold step'. cbn [fst snd]. rewrite <- (nonempty_eqv _ _ Hinp), <- Hr.
@@ -448,7 +462,7 @@ Proof.
   destruct (Pos.eqb_spec x ext_id) as [E|_]; [contradiction|]. destruct (Pos.eqb_spec x exp_id) as [E|_]; [contradiction|].
   pose proof (same_below_inline (S f) ly Htop) as Hsb.
   pose proof (on_tick_level_eqv2 cfg devf Hdev_nd Hdev_ext cfgF (S f) ly Hsb Hssl time
-                (get_d x (co_in aN)) (get_d x (co_in aF)) (co_s aN) (co_s aF) (HS x ly Hx Hk) Hinp (ro_okN _ _ HR x) (ro_okF _ _ HR x)) as Hcg.
+                (get_d x (co_in aN)) (get_d x (co_in aF)) (co_s aN) (co_s aF) (HS x ly (S f) Hxs) Hinp (ro_okN _ _ HR x) (ro_okF _ _ HR x)) as Hcg.
   pose proof (on_tick_level_framed cfg devf (S f) ly time (get_d x (co_in aN)) (co_s aN)) as FrN.
   pose proof (on_tick_level_framed cfgF devf (S f) ly time (get_d x (co_in aF)) (co_s aF)) as FrF.
   destruct (below_eq cfg cfgF (S f) ly Hsb) as [EL ED]. rewrite EL, ED in FrF. fold D L in FrN, FrF.
@@ -501,10 +515,10 @@ Proof.
   - (* frameF *)
     unfold frameF. intros d Hd. cbn [aF' co_s]. rewrite Hwt'. destruct (Pos.eqb_spec d x) as [E|_]; [subst d; contradiction | reflexivity].
   - (* the siblings *)
-    cbn [aN' aF' co_s]. intros y2 ly2 Hy2 Hk2.
-    destruct (Hsib y2 ly2 Hy2 Hk2) as [Htop2 _].
-    assert (H1 : SR (devices_below cfg (S f) ly2) (levels_below cfg (S f) ly2) s1 s1').
-    { apply (SR_combine _ _ D L (co_s aN) (co_s aF) s1 s1' ob ob' (HS y2 ly2 Hy2 Hk2) Hs1 (conj FN1 (conj FN2 FN3)) (conj FF1 (conj FF2 FF3))). }
+    cbn [aN' aF' co_s]. intros y2 ly2 g2 Hy2.
+    destruct (Hsib y2 ly2 g2 Hy2) as [Htop2 _].
+    assert (H1 : SR (devices_below cfg g2 ly2) (levels_below cfg g2 ly2) s1 s1').
+    { apply (SR_combine _ _ D L (co_s aN) (co_s aF) s1 s1' ob ob' (HS y2 ly2 g2 Hy2) Hs1 (conj FN1 (conj FN2 FN3)) (conj FF1 (conj FF2 FF3))). }
     unfold s2, s2'. destruct ca as [w|]; [apply SR_set_wake_other; assumption | exact H1].
 Qed.
 
@@ -522,50 +536,189 @@ Record R2 (aNb aC aF : core) : Prop := {
   r2_wo : forall y, In y outs_ -> lookup y (wake_of (co_s aC) top) = lookup y (wake_of (co_s aF) top)
 }.
 
+(* what is pending where after a component of the inner level reported [ch] on both sides *)
+Lemma pend_after_in aNb aC aF aC' aF' d ch :
+  In d inn -> NoDup (keys ch) ->
+  (forall e, In e inn -> forall q, pd aF e q = pd aC e q) ->
+  (forall y, In y outs_ -> forall q, (forall o, ~ In (c, o, y, q) C1) -> pd aF y q = pd aNb y q) ->
+  (forall y, In y outs_ -> forall q o, In (c, o, y, q) C1 -> pd aF y q = pd aC exp_id o) ->
+  (forall y q, pd aC' y q = match lookup2r (route Cc d ch) y q with Some v => Some v | None => pd aC y q end) ->
+  (forall y q, pd aF' y q = match lookup2r (route CF d ch) y q with Some v => Some v | None => pd aF y q end) ->
+  (forall e, In e inn -> forall q, pd aF' e q = pd aC' e q) /\
+  (forall y, In y outs_ -> forall q, (forall o, ~ In (c, o, y, q) C1) -> pd aF' y q = pd aNb y q) /\
+  (forall y, In y outs_ -> forall q o, In (c, o, y, q) C1 -> pd aF' y q = pd aC' exp_id o).
+Proof.
+  intros Hd Hch Hpi Hpa Hpb PC PF.
+  pose proof (sh_ss1 _ _ _ _ _ _ Hsh) as S1. fold C1 in S1.
+  pose proof (sh_ssc _ _ _ _ _ _ Hsh) as Sc. fold Cc in Sc.
+  pose proof (Cf_single_source cfg c lvc pre inn post Hsh) as SF. fold CF in SF.
+  split; [|split].
+  - intros e He q. rewrite PC, PF, (Hpi e He q).
+    rewrite (route_lookup_ext Cc CF d ch e q e q Sc SF Hch); [reflexivity|].
+    intros p. apply (wire_BB cfg c lvc pre inn post Hsh d p e q Hd He).
+  - intros y Hy q Hno. rewrite PF, (Hpa y Hy q Hno).
+    rewrite (route_lookup_none CF d ch y q SF Hch); [reflexivity|].
+    intros p Hk. apply (wire_BA cfg c lvc pre inn post Hsh d p y q Hd Hy) in Hk. destruct Hk as [o [_ Hk]]. apply (Hno o Hk).
+  - intros y Hy q o Hk. rewrite PF, PC, (Hpb y Hy q o Hk).
+    rewrite (route_lookup_ext Cc CF d ch exp_id o y q Sc SF Hch); [reflexivity|].
+    intros p. split.
+    + intros H. apply (wire_BA cfg c lvc pre inn post Hsh d p y q Hd Hy) in H. destruct H as [o' [H1 H2]].
+      destruct (S1 c o' c o y q H2 Hk) as [_ E]. subst o'. exact H1.
+    + intros H1. apply (wire_BA cfg c lvc pre inn post Hsh d p y q Hd Hy). exists o. split; assumption.
+Qed.
+
+Lemma SR_set_wake_2 D L s s' lv lv' w w' : ~ In lv L -> ~ In lv' L -> SR D L s s' -> SR D L (set_wake s lv w) (set_wake s' lv' w').
+Proof.
+  intros Hlv Hlv' [A B]. split; [exact A|]. intros l Hl. destruct (B l Hl) as [X [Y Z]].
+  assert (Hne : l <> lv) by (intros E; subst l; contradiction).
+  assert (Hne' : l <> lv') by (intros E; subst l; contradiction).
+  rewrite !wake_of_set_wake_other by assumption. repeat split; assumption.
+Qed.
+
+(* what a step inside the system's tick keeps, besides R2 *)
+Definition keepC (aC aC' : core) : Prop :=
+  wake_of (co_s aC') top = wake_of (co_s aC) top /\
+  int_of (co_s aC') lvc = int_of (co_s aC) lvc /\ memb lvc (s_ticked (co_s aC')) = memb lvc (s_ticked (co_s aC)) /\
+  (forall k, lookup k (wake_of (co_s aC) lvc) <> None -> lookup k (wake_of (co_s aC') lvc) <> None) /\
+  co_out aC' = co_out aC.
+
+Lemma keepC_refl a : keepC a a.
+Proof. repeat split; auto. Qed.
+Lemma keepC_trans a1 a2 a3 : keepC a1 a2 -> keepC a2 a3 -> keepC a1 a3.
+Proof. intros [A1 [A2 [A3 [A4 A5]]]] [B1 [B2 [B3 [B4 B5]]]]. repeat split; try congruence. intros k Hk. apply B4. apply A4. exact Hk. Qed.
+
+(* an inner device is processed on both sides *)
 Lemma in_step innC innF rootsC rootsF chg aNb aC aF d :
   In d inn -> memb d rootsC = memb d rootsF -> R2 aNb aC aF ->
   let aC' := step' devf innC lvc Cc time rootsC chg aC (d, KDev) in
   let aF' := step' devf innF top CF time rootsF [] aF (d, KDev) in
-  R2 aNb aC' aF' /\ wake_of (co_s aC') top = wake_of (co_s aC) top /\
-  s_int (co_s aC') = s_int (co_s aC) /\ s_ticked (co_s aC') = s_ticked (co_s aC).
+  R2 aNb aC' aF' /\ keepC aC aC' /\ (SUB (co_s aC) (co_s aF) -> SUB (co_s aC') (co_s aF')).
 Proof.
   intros Hd Hr HR. cbv zeta.
   destruct (inner_not_outsider cfg c lvc pre inn post Hsh d Hd) as [Hdo [Hdc [Hde Hdx]]].
-  pose proof (sh_ss1 _ _ _ _ _ _ Hsh) as S1. fold C1 in S1.
-  pose proof (sh_ssc _ _ _ _ _ _ Hsh) as Sc. fold Cc in Sc.
-  pose proof (Cf_single_source cfg c lvc pre inn post Hsh) as SF. fold CF in SF.
   assert (Hlv : top <> lvc) by (intros E; apply (sh_lv _ _ _ _ _ _ Hsh); symmetry; exact E).
   destruct (par_dev devf Hdev_nd Hdev_ext time innC innF lvc top Cc CF rootsC rootsF chg [] aC aF d Hde Hdx
               (r2_dev _ _ _ HR d (in_inn_all d Hd)) (eqv_of_pd aC aF d (r2_pi _ _ _ HR d Hd)) (r2_okC _ _ _ HR d) (r2_okF _ _ _ HR d) Hr)
     as [[EN EF]|[ch [ca [iN [iF [Hch [Hieq [HeN [HeF Hdx2]]]]]]]]].
-  - rewrite EN, EF. split; [exact HR|]. split; [reflexivity|]. split; reflexivity.
+  - rewrite EN, EF. split; [exact HR|]. split; [apply keepC_refl | auto].
   - assert (PC := pd_after time lvc Cc aC _ d ch ca iN HeN). assert (PF := pd_after time top CF aF _ d ch ca iF HeF).
-    split; [|split; [apply (de_wake_other _ _ _ _ _ _ _ _ _ HeN top Hlv) | split; [apply (de_int _ _ _ _ _ _ _ _ _ HeN) | apply (de_ticked _ _ _ _ _ _ _ _ _ HeN)]]].
-    constructor.
-    + intros z Hz. destruct (Pos.eq_dec z d) as [E|Hne]; [subst z; exact Hdx2|].
-      unfold drel. rewrite (de_other _ _ _ _ _ _ _ _ _ HeN z Hne), (de_other _ _ _ _ _ _ _ _ _ HeF z Hne),
-        (de_cnt_other _ _ _ _ _ _ _ _ _ HeN z Hne), (de_cnt_other _ _ _ _ _ _ _ _ _ HeF z Hne). apply (r2_dev _ _ _ HR z Hz).
-    + intros e He q. rewrite PC, PF, (r2_pi _ _ _ HR e He q).
-      rewrite (route_lookup_ext Cc CF d ch e q e q Sc SF Hch); [reflexivity|].
-      intros p. apply (wire_BB cfg c lvc pre inn post Hsh d p e q Hd He).
-    + intros y Hy q Hno. rewrite PF, (r2_pa _ _ _ HR y Hy q Hno).
-      rewrite (route_lookup_none CF d ch y q SF Hch); [reflexivity|].
-      intros p Hk. apply (wire_BA cfg c lvc pre inn post Hsh d p y q Hd Hy) in Hk. destruct Hk as [o [_ Hk]]. apply (Hno o Hk).
-    + intros y Hy q o Hk. rewrite PF, PC, (r2_pb _ _ _ HR y Hy q o Hk).
-      rewrite (route_lookup_ext Cc CF d ch exp_id o y q Sc SF Hch); [reflexivity|].
-      intros p. split.
-      * intros H. apply (wire_BA cfg c lvc pre inn post Hsh d p y q Hd Hy) in H. destruct H as [o' [H1 H2]].
-        destruct (S1 c o' c o y q H2 Hk) as [_ E]. subst o'. exact H1.
-      * intros H1. apply (wire_BA cfg c lvc pre inn post Hsh d p y q Hd Hy). exists o. split; assumption.
-    + rewrite (de_in _ _ _ _ _ _ _ _ _ HeN). apply in_ok_accumulate. exact (r2_okC _ _ _ HR).
-    + rewrite (de_in _ _ _ _ _ _ _ _ _ HeF). apply in_ok_accumulate. exact (r2_okF _ _ _ HR).
-    + rewrite (de_obs _ _ _ _ _ _ _ _ _ HeN), (de_obs _ _ _ _ _ _ _ _ _ HeF), app_assoc. apply obs_rel_app; [exact (r2_obs _ _ _ HR)|].
-      constructor; [|constructor]. split; [reflexivity | exact Hieq].
-    + intros e He. rewrite (de_wake _ _ _ _ _ _ _ _ _ HeN), (de_wake _ _ _ _ _ _ _ _ _ HeF).
-      destruct ca as [w|]; [rewrite !lookup_upd; rewrite (r2_wi _ _ _ HR e He); reflexivity | apply (r2_wi _ _ _ HR e He)].
-    + intros y Hy. rewrite (de_wake_other _ _ _ _ _ _ _ _ _ HeN top Hlv), (de_wake _ _ _ _ _ _ _ _ _ HeF).
-      destruct ca as [w|]; [|apply (r2_wo _ _ _ HR y Hy)].
-      rewrite lookup_upd_other; [apply (r2_wo _ _ _ HR y Hy)|]. intros E. subst y. contradiction.
+    destruct (pend_after_in aNb aC aF _ _ d ch Hd Hch (r2_pi _ _ _ HR) (r2_pa _ _ _ HR) (r2_pb _ _ _ HR) PC PF) as [Hpi [Hpa Hpb]].
+    split; [|split].
+    + constructor.
+      * intros z Hz. destruct (Pos.eq_dec z d) as [E|Hne]; [subst z; exact Hdx2|].
+        unfold drel. rewrite (de_other _ _ _ _ _ _ _ _ _ HeN z Hne), (de_other _ _ _ _ _ _ _ _ _ HeF z Hne),
+          (de_cnt_other _ _ _ _ _ _ _ _ _ HeN z Hne), (de_cnt_other _ _ _ _ _ _ _ _ _ HeF z Hne). apply (r2_dev _ _ _ HR z Hz).
+      * exact Hpi.
+      * exact Hpa.
+      * exact Hpb.
+      * rewrite (de_in _ _ _ _ _ _ _ _ _ HeN). apply in_ok_accumulate. exact (r2_okC _ _ _ HR).
+      * rewrite (de_in _ _ _ _ _ _ _ _ _ HeF). apply in_ok_accumulate. exact (r2_okF _ _ _ HR).
+      * rewrite (de_obs _ _ _ _ _ _ _ _ _ HeN), (de_obs _ _ _ _ _ _ _ _ _ HeF), app_assoc. apply obs_rel_app; [exact (r2_obs _ _ _ HR)|].
+        constructor; [|constructor]. split; [reflexivity | exact Hieq].
+      * intros e He. rewrite (de_wake _ _ _ _ _ _ _ _ _ HeN), (de_wake _ _ _ _ _ _ _ _ _ HeF).
+        destruct ca as [w|]; [rewrite !lookup_upd; rewrite (r2_wi _ _ _ HR e He); reflexivity | apply (r2_wi _ _ _ HR e He)].
+      * intros y Hy. rewrite (de_wake_other _ _ _ _ _ _ _ _ _ HeN top Hlv), (de_wake _ _ _ _ _ _ _ _ _ HeF).
+        destruct ca as [w|]; [|apply (r2_wo _ _ _ HR y Hy)].
+        rewrite lookup_upd_other; [apply (r2_wo _ _ _ HR y Hy)|]. intros E. subst y. contradiction.
+    + unfold keepC. split; [apply (de_wake_other _ _ _ _ _ _ _ _ _ HeN top Hlv)|].
+      split; [unfold int_of; rewrite (de_int _ _ _ _ _ _ _ _ _ HeN); reflexivity|].
+      split; [rewrite (de_ticked _ _ _ _ _ _ _ _ _ HeN); reflexivity|].
+      split; [|apply (de_out _ _ _ _ _ _ _ _ _ HeN)].
+      intros k Hk. rewrite (de_wake _ _ _ _ _ _ _ _ _ HeN). destruct ca as [w|]; [|exact Hk].
+      rewrite lookup_upd. destruct (Pos.eqb k d); [discriminate | exact Hk].
+    + intros HS y ly g Hy. destruct (HS y ly g Hy) as [A B].
+      destruct (Hsib y ly g Hy) as [Htop [Hlvc [HD _]]].
+      split.
+      * intros z Hz. assert (Hne : z <> d) by (intros E; subst z; apply (proj1 (HD d Hz)); apply in_inn_all; exact Hd).
+        unfold drel. rewrite (de_other _ _ _ _ _ _ _ _ _ HeN z Hne), (de_other _ _ _ _ _ _ _ _ _ HeF z Hne),
+          (de_cnt_other _ _ _ _ _ _ _ _ _ HeN z Hne), (de_cnt_other _ _ _ _ _ _ _ _ _ HeF z Hne). apply (A z Hz).
+      * intros l Hl. assert (Hne : l <> top) by (intros E; subst l; contradiction).
+        assert (Hne2 : l <> lvc) by (intros E; subst l; contradiction).
+        unfold int_of. rewrite (de_wake_other _ _ _ _ _ _ _ _ _ HeN l Hne2), (de_wake_other _ _ _ _ _ _ _ _ _ HeF l Hne),
+          (de_int _ _ _ _ _ _ _ _ _ HeN), (de_int _ _ _ _ _ _ _ _ _ HeF), (de_ticked _ _ _ _ _ _ _ _ _ HeN), (de_ticked _ _ _ _ _ _ _ _ _ HeF).
+        apply (B l Hl).
+Qed.
+
+(* a system simulation inside c is processed on both sides: by the nested scheduler of c with fuel f,
+   by the master of the inlined configuration with fuel S f *)
+Lemma in_step_sys rootsC rootsF chg aNb aC aF y ly :
+  In y inn -> kd_in cfg lvc y = KSys ly -> memb y rootsC = memb y rootsF -> R2 aNb aC aF -> SUB (co_s aC) (co_s aF) ->
+  let aC' := step' devf (on_tick_level cfg devf f) lvc Cc time rootsC chg aC (y, KSys ly) in
+  let aF' := step' devf (on_tick_level cfgF devf (S f)) top CF time rootsF [] aF (y, KSys ly) in
+  R2 aNb aC' aF' /\ keepC aC aC' /\ SUB (co_s aC') (co_s aF').
+Proof.
+  intros Hy Hk Hr HR HS. cbv zeta.
+  destruct (inner_not_outsider cfg c lvc pre inn post Hsh y Hy) as [Hyo [Hyc [Hye Hyx]]].
+  pose proof (Cf_single_source cfg c lvc pre inn post Hsh) as SF. fold CF in SF.
+  assert (Hlv : top <> lvc) by (intros E; apply (sh_lv _ _ _ _ _ _ Hsh); symmetry; exact E).
+  assert (Hys : issys cfg f lvc pre inn post y ly f) by (right; split; [exact Hy | split; [exact Hk | reflexivity]]).
+  destruct (Hsib y ly f Hys) as [Htop [Hlvc [HD [Hssl Hdeep]]]]. specialize (Hdeep eq_refl).
+  set (D := devices_below cfg f ly) in *. set (L := levels_below cfg f ly) in *.
+  assert (Hinp : eqv (get_d y (co_in aC)) (get_d y (co_in aF))) by (apply eqv_of_pd; apply (r2_pi _ _ _ HR y Hy)).
+  unfold step'. cbn [fst snd]. rewrite <- (nonempty_eqv _ _ Hinp), <- Hr.
+  destruct (nonempty (get_d y (co_in aC)) || memb y rootsC).
+  2: { split; [exact HR|]. split; [apply keepC_refl | exact HS]. }
+  destruct (Pos.eqb_spec y ext_id) as [E|_]; [contradiction|]. destruct (Pos.eqb_spec y exp_id) as [E|_]; [contradiction|].
+  pose proof (same_below_inline f ly Htop) as Hsb.
+  rewrite (on_tick_level_fuel cfgF devf f ly (deep_enough_same cfg cfgF f ly Hsb Hdeep)).
+  pose proof (on_tick_level_eqv2 cfg devf Hdev_nd Hdev_ext cfgF f ly Hsb Hssl time
+                (get_d y (co_in aC)) (get_d y (co_in aF)) (co_s aC) (co_s aF) (HS y ly f Hys) Hinp (r2_okC _ _ _ HR y) (r2_okF _ _ _ HR y)) as Hcg.
+  pose proof (on_tick_level_framed cfg devf f ly time (get_d y (co_in aC)) (co_s aC)) as FrN.
+  pose proof (on_tick_level_framed cfgF devf f ly time (get_d y (co_in aF)) (co_s aF)) as FrF.
+  destruct (below_eq cfg cfgF f ly Hsb) as [EL ED]. rewrite EL, ED in FrF. fold D L in FrN, FrF.
+  destruct (on_tick_level cfg devf f ly time (get_d y (co_in aC)) (co_s aC)) as [[[s1 ch] ca] ob].
+  destruct (on_tick_level cfgF devf f ly time (get_d y (co_in aF)) (co_s aF)) as [[[s1' ch'] ca'] ob'].
+  destruct Hcg as [Ech [Nch [Nch' [Eca [Eob Hs1]]]]]. subst ca'.
+  destruct FrN as [FN1 [FN2 FN3]]. destruct FrF as [FF1 [FF2 FF3]].
+  set (s2 := match ca with Some w => set_wake s1 lvc (upd y w (wake_of s1 lvc)) | None => s1 end).
+  set (s2' := match ca with Some w => set_wake s1' top (upd y w (wake_of s1' top)) | None => s1' end).
+  assert (EcN : wake_of s1 lvc = wake_of (co_s aC) lvc) by (apply (FN2 lvc Hlvc)).
+  assert (EtN : wake_of s1 top = wake_of (co_s aC) top) by (apply (FN2 top Htop)).
+  assert (EtF : wake_of s1' top = wake_of (co_s aF) top) by (apply (FF2 top Htop)).
+  assert (Hw2t : wake_of s2 top = wake_of (co_s aC) top).
+  { unfold s2. destruct ca as [w|]; [rewrite wake_of_set_wake_other by exact Hlv|]; exact EtN. }
+  assert (Hwc : forall z, lookup z (wake_of s2 lvc) = if Pos.eqb z y then match ca with Some w => Some w | None => lookup z (wake_of (co_s aC) lvc) end else lookup z (wake_of (co_s aC) lvc)).
+  { intros z. unfold s2. destruct ca as [w|]; [rewrite wake_of_set_wake, lookup_upd, EcN; reflexivity | rewrite EcN; destruct (Pos.eqb z y); reflexivity]. }
+  assert (Hwt' : forall z, lookup z (wake_of s2' top) = if Pos.eqb z y then match ca with Some w => Some w | None => lookup z (wake_of (co_s aF) top) end else lookup z (wake_of (co_s aF) top)).
+  { intros z. unfold s2'. destruct ca as [w|]; [rewrite wake_of_set_wake, lookup_upd, EtF; reflexivity | rewrite EtF; destruct (Pos.eqb z y); reflexivity]. }
+  assert (Hdc2 : forall z, lookup z (s_dc s2) = lookup z (s_dc s1) /\ lookup z (s_n s2) = lookup z (s_n s1)) by (intros z; unfold s2; destruct ca; split; reflexivity).
+  assert (Hdc2' : forall z, lookup z (s_dc s2') = lookup z (s_dc s1') /\ lookup z (s_n s2') = lookup z (s_n s1')) by (intros z; unfold s2'; destruct ca; split; reflexivity).
+  assert (Hint2 : s_int s2 = s_int s1 /\ s_ticked s2 = s_ticked s1) by (unfold s2; destruct ca; split; reflexivity).
+  set (aC' := {| co_s := s2; co_in := accumulate (co_in aC) (route Cc y ch); co_out := co_out aC; co_obs := co_obs aC ++ ob |}).
+  set (aF' := {| co_s := s2'; co_in := accumulate (co_in aF) (route CF y ch'); co_out := co_out aF; co_obs := co_obs aF ++ ob' |}).
+  assert (PC : forall z q, pd aC' z q = match lookup2r (route Cc y ch) z q with Some v => Some v | None => pd aC z q end)
+    by (intros z q; unfold pd, aC'; cbn [co_in]; apply accumulate_lookup; apply route_WFd).
+  assert (PF : forall z q, pd aF' z q = match lookup2r (route CF y ch) z q with Some v => Some v | None => pd aF z q end).
+  { intros z q. unfold pd, aF'. cbn [co_in]. rewrite accumulate_lookup by apply route_WFd.
+    rewrite (route_eqv CF y ch' ch z q SF Nch' Nch (eqv_sym _ _ Ech)). reflexivity. }
+  destruct (pend_after_in aNb aC aF aC' aF' y ch Hy Nch (r2_pi _ _ _ HR) (r2_pa _ _ _ HR) (r2_pb _ _ _ HR) PC PF) as [Hpi [Hpa Hpb]].
+  assert (Houtside : forall z, In z allc -> ~ In z D) by (intros z Hz Hd; apply (proj1 (HD z Hd)); exact Hz).
+  split; [|split].
+  - constructor; cbn [aC' aF' co_s co_in co_obs].
+    + intros z Hz. destruct (FN1 z (Houtside z Hz)) as [X1 X2]. destruct (FF1 z (Houtside z Hz)) as [Y1 Y2].
+      apply (drel_frame (co_s aC) (co_s aF) s2 s2' z (r2_dev _ _ _ HR z Hz)).
+      * rewrite (proj1 (Hdc2 z)). exact X1.
+      * rewrite (proj2 (Hdc2 z)). exact X2.
+      * rewrite (proj1 (Hdc2' z)). exact Y1.
+      * rewrite (proj2 (Hdc2' z)). exact Y2.
+    + exact Hpi.
+    + exact Hpa.
+    + exact Hpb.
+    + apply in_ok_accumulate. exact (r2_okC _ _ _ HR).
+    + apply in_ok_accumulate. exact (r2_okF _ _ _ HR).
+    + rewrite app_assoc. apply obs_rel_app; [exact (r2_obs _ _ _ HR) | exact Eob].
+    + intros e He. rewrite Hwc, Hwt', (r2_wi _ _ _ HR e He). reflexivity.
+    + intros z Hz. rewrite Hw2t, Hwt'. destruct (Pos.eqb_spec z y) as [E|_]; [subst z; contradiction | apply (r2_wo _ _ _ HR z Hz)].
+  - unfold keepC. cbn [aC' co_s co_out]. split; [exact Hw2t|].
+    split; [unfold int_of; rewrite (proj1 Hint2); apply (FN2 lvc Hlvc)|].
+    split; [rewrite (proj2 Hint2); apply (FN2 lvc Hlvc)|].
+    split; [|reflexivity].
+    intros k Hk2. rewrite Hwc. destruct (Pos.eqb k y); [destruct ca; [discriminate | exact Hk2] | exact Hk2].
+  - cbn [aC' aF' co_s]. intros y2 ly2 g2 Hy2.
+    destruct (Hsib y2 ly2 g2 Hy2) as [Htop2 [Hlvc2 _]].
+    assert (H1 : SR (devices_below cfg g2 ly2) (levels_below cfg g2 ly2) s1 s1').
+    { apply (SR_combine _ _ D L (co_s aC) (co_s aF) s1 s1' ob ob' (HS y2 ly2 g2 Hy2) Hs1 (conj FN1 (conj FN2 FN3)) (conj FF1 (conj FF2 FF3))). }
+    unfold s2, s2'. destruct ca as [w|]; [apply SR_set_wake_2; assumption | exact H1].
 Qed.
 
 Lemma frameN_trans a1 a2 a3 : frameN a1 a2 -> frameN a2 a3 -> frameN a1 a3.
@@ -594,41 +747,98 @@ Proof.
       * intros d Hd. rewrite (G5 d Hd). apply F2. exact Hd.
 Qed.
 
-Lemma in_fold innC innF rootsC rootsF chg aNb : forall l aC aF,
-  (forall d, In d l -> In d inn) -> (forall d, In d l -> memb d rootsC = memb d rootsF) -> R2 aNb aC aF ->
-  let aC' := fold_left (step' devf innC lvc Cc time rootsC chg) (map dv l) aC in
-  let aF' := fold_left (step' devf innF top CF time rootsF []) (map dv l) aF in
-  R2 aNb aC' aF' /\ wake_of (co_s aC') top = wake_of (co_s aC) top /\
-  s_int (co_s aC') = s_int (co_s aC) /\ s_ticked (co_s aC') = s_ticked (co_s aC).
+Lemma in_fold rootsC rootsF chg aNb : forall l aC aF,
+  (forall d, In d l -> In d inn) -> (forall d, In d l -> memb d rootsC = memb d rootsF) -> R2 aNb aC aF -> SUB (co_s aC) (co_s aF) ->
+  let aC' := fold_left (step' devf (on_tick_level cfg devf f) lvc Cc time rootsC chg) (map (dki cfg lvc) l) aC in
+  let aF' := fold_left (step' devf (on_tick_level cfgF devf (S f)) top CF time rootsF []) (map (dki cfg lvc) l) aF in
+  R2 aNb aC' aF' /\ keepC aC aC' /\ SUB (co_s aC') (co_s aF').
 Proof.
-  induction l as [|d r IH]; intros aC aF Hl Hr HR; cbv zeta; cbn [map fold_left].
-  - split; [exact HR|]. repeat split; reflexivity.
-  - change (dv d) with (d, KDev).
-    destruct (in_step innC innF rootsC rootsF chg aNb aC aF d (Hl d (or_introl eq_refl)) (Hr d (or_introl eq_refl)) HR) as [HR1 [F1 [F2 F3]]].
-    destruct (IH _ _ (fun y Hy => Hl y (or_intror Hy)) (fun y Hy => Hr y (or_intror Hy)) HR1) as [HR2 [G1 [G2 G3]]].
-    split; [exact HR2|]. repeat split; congruence.
+  induction l as [|d r IH]; intros aC aF Hl Hr HR HS; cbv zeta; cbn [map fold_left].
+  - split; [exact HR|]. split; [apply keepC_refl | exact HS].
+  - change (dki cfg lvc d) with (d, kd_in cfg lvc d). destruct (kd_in cfg lvc d) as [|ly] eqn:Ek.
+    + destruct (in_step (on_tick_level cfg devf f) (on_tick_level cfgF devf (S f)) rootsC rootsF chg aNb aC aF d (Hl d (or_introl eq_refl)) (Hr d (or_introl eq_refl)) HR) as [HR1 [K1 S1]].
+      destruct (IH _ _ (fun y Hy => Hl y (or_intror Hy)) (fun y Hy => Hr y (or_intror Hy)) HR1 (S1 HS)) as [HR2 [K2 S2]].
+      split; [exact HR2|]. split; [eapply keepC_trans; eassumption | exact S2].
+    + destruct (in_step_sys rootsC rootsF chg aNb aC aF d ly (Hl d (or_introl eq_refl)) Ek (Hr d (or_introl eq_refl)) HR HS) as [HR1 [K1 S1]].
+      destruct (IH _ _ (fun y Hy => Hl y (or_intror Hy)) (fun y Hy => Hr y (or_intror Hy)) HR1 S1) as [HR2 [K2 S2]].
+      split; [exact HR2|]. split; [eapply keepC_trans; eassumption | exact S2].
 Qed.
 
-(* when the system is not ticked, the inlined devices are not touched either *)
+(* when the system is not ticked, the inlined components are not touched either *)
 Lemma in_fold_idle innF rootsF : forall l aF,
   (forall d, In d l -> get_d d (co_in aF) = [] /\ memb d rootsF = false) ->
-  fold_left (step' devf innF top CF time rootsF []) (map dv l) aF = aF.
+  fold_left (step' devf innF top CF time rootsF []) (map (dki cfg lvc) l) aF = aF.
 Proof.
   induction l as [|d r IH]; intros aF H; [reflexivity|]. cbn [map fold_left].
   destruct (H d (or_introl eq_refl)) as [E1 E2].
-  assert (E : step' devf innF top CF time rootsF [] aF (dv d) = aF).
-  { unfold step', dv. cbn [fst snd]. rewrite E1, E2. reflexivity. }
+  assert (E : step' devf innF top CF time rootsF [] aF (dki cfg lvc d) = aF).
+  { unfold step', dki. cbn [fst snd]. rewrite E1, E2. reflexivity. }
   rewrite E. apply IH. intros y Hy. apply H. right. exact Hy.
 Qed.
 
 (* ---------- the system's own step *)
 Definition due_of (s : sstate) : list comp := map fst (filter (fun e : comp * Z => Z.leb (snd e) time) (wake_of s lvc)).
 Definition rootsC_of (s : sstate) : list comp :=
-  int_of s lvc ++ due_of s ++ [ext_id] ++ (if negb (memb lvc (s_ticked s)) then map fst (map dv inn) ++ [exp_id] else []).
+  int_of s lvc ++ due_of s ++ [ext_id] ++ (if negb (memb lvc (s_ticked s)) then inn ++ [exp_id] else []).
 Definition notdue (e : comp * Z) : bool := negb (Z.leb (snd e) time).
 
-Lemma sys_step innF rootsN rootsF aNb aF :
-  Rout aNb aF -> Rpre aNb aF -> Rnc aNb ->
+(* ---------- what the system's own step and the inlined devices leave untouched *)
+Definition frm (D : list comp) (Ls : list positive) (s s2 : sstate) : Prop :=
+  (forall z, ~ In z D -> dcs s2 z = dcs s z /\ lookup z (s_n s2) = lookup z (s_n s)) /\
+  (forall l, ~ In l Ls -> wake_of s2 l = wake_of s l /\ int_of s2 l = int_of s l /\ memb l (s_ticked s2) = memb l (s_ticked s)).
+
+Lemma frm_refl D Ls s : frm D Ls s s.
+Proof. split; intros; repeat split; reflexivity. Qed.
+
+Lemma frm_trans D Ls s1 s2 s3 : frm D Ls s1 s2 -> frm D Ls s2 s3 -> frm D Ls s1 s3.
+Proof.
+  intros [A1 B1] [A2 B2]. split.
+  - intros z Hz. destruct (A1 z Hz) as [X1 Y1]. destruct (A2 z Hz) as [X2 Y2]. split; congruence.
+  - intros l Hl. destruct (B1 l Hl) as [X1 [Y1 Z1]]. destruct (B2 l Hl) as [X2 [Y2 Z2]]. repeat split; congruence.
+Qed.
+
+Lemma SR_frm D L s s' D1 L1 D2 L2 s2 s2' :
+  SR D L s s' -> frm D1 L1 s s2 -> frm D2 L2 s' s2' ->
+  (forall z, In z D -> ~ In z D1 /\ ~ In z D2) -> (forall l, In l L -> ~ In l L1 /\ ~ In l L2) -> SR D L s2 s2'.
+Proof.
+  intros [A B] [F1 G1] [F2 G2] HD HL. split.
+  - intros z Hz. destruct (HD z Hz) as [N1 N2]. destruct (F1 z N1) as [X1 Y1]. destruct (F2 z N2) as [X2 Y2].
+    specialize (A z Hz). unfold drel in *. rewrite X1, X2, Y1, Y2. exact A.
+  - intros l Hl. destruct (HL l Hl) as [N1 N2]. destruct (G1 l N1) as [X1 [Y1 Z1]]. destruct (G2 l N2) as [X2 [Y2 Z2]].
+    destruct (B l Hl) as [P [Q R]]. repeat split; congruence.
+Qed.
+
+Lemma set_wake_frm s lv w : frm [] [lv] s (set_wake s lv w).
+Proof.
+  split; [intros z _; split; reflexivity|]. intros l Hl. assert (Hne : l <> lv) by (intros E; apply Hl; left; symmetry; exact E).
+  rewrite wake_of_set_wake_other by exact Hne. repeat split; reflexivity.
+Qed.
+
+Lemma map_fst_dki l : map fst (map (dki cfg lvc) l) = l.
+Proof. unfold dki. rewrite map_map. cbn [fst]. apply map_id. Qed.
+
+Lemma prologue_frm s w roots : frm [] [lvc] s (log_tick (mark_ticked (set_int (set_wake s lvc w) lvc []) lvc) lvc time roots).
+Proof.
+  split; [intros z _; split; reflexivity|]. intros l Hl. assert (Hne : l <> lvc) by (intros E; apply Hl; left; symmetry; exact E).
+  split; [|split].
+  - change (wake_of (log_tick (mark_ticked (set_int (set_wake s lvc w) lvc []) lvc) lvc time roots) l) with (wake_of (set_wake s lvc w) l).
+    apply wake_of_set_wake_other. exact Hne.
+  - unfold int_of, log_tick, mark_ticked, set_int, set_wake. cbn [s_int]. apply get_d_upd_other. exact Hne.
+  - unfold log_tick, mark_ticked, set_int, set_wake. cbn [s_ticked].
+    destruct (memb lvc (s_ticked s)); [reflexivity|]. cbn [memb existsb].
+    destruct (Pos.eqb_spec l lvc); [contradiction | reflexivity].
+Qed.
+
+Lemma SR_frm_l D L s s' D1 L1 s2 :
+  SR D L s s' -> frm D1 L1 s s2 -> (forall z, In z D -> ~ In z D1) -> (forall l, In l L -> ~ In l L1) -> SR D L s2 s'.
+Proof.
+  intros H F HD HL. apply (SR_frm D L s s' D1 L1 [] [] s2 s' H F (frm_refl _ _ _)).
+  - intros z Hz. split; [apply HD; exact Hz | intros []].
+  - intros l Hl. split; [apply HL; exact Hl | intros []].
+Qed.
+
+Lemma sys_step rootsN rootsF aNb aF :
+  Rout aNb aF -> Rpre aNb aF -> Rnc aNb -> SUB (co_s aNb) (co_s aF) ->
   let chg := get_d c (co_in aNb) in
   let ticked := nonempty chg || memb c rootsN in
   (ticked = true -> forall d, In d inn -> memb d (rootsC_of (co_s aNb)) = memb d rootsF) ->
@@ -636,8 +846,8 @@ Lemma sys_step innF rootsN rootsF aNb aF :
   (forall d, In d inn ->
      lookup d (if ticked then filter notdue (wake_of (co_s aNb) lvc) else wake_of (co_s aNb) lvc) = lookup d (wake_of (co_s aF) top)) ->
   let aN' := step' devf (on_tick_level cfg devf (S f)) top C1 time rootsN [] aNb (c, KSys lvc) in
-  let aF' := fold_left (step' devf innF top CF time rootsF []) (map dv inn) aF in
-  Rout aN' aF' /\
+  let aF' := fold_left (step' devf (on_tick_level cfgF devf (S f)) top CF time rootsF []) (map (dki cfg lvc) inn) aF in
+  Rout aN' aF' /\ SUB (co_s aN') (co_s aF') /\
   (forall d, In d inn -> lookup d (wake_of (co_s aN') lvc) = lookup d (wake_of (co_s aF') top)) /\
   lookup c (wake_of (co_s aN') top) =
     (if ticked then match min_wake (wake_of (co_s aN') lvc) with Some w => Some w | None => lookup c (wake_of (co_s aNb) top) end
@@ -646,17 +856,17 @@ Lemma sys_step innF rootsN rootsF aNb aF :
   int_of (co_s aN') lvc = (if ticked then [] else int_of (co_s aNb) lvc) /\
   (ticked = true -> forall k, lookup k (filter notdue (wake_of (co_s aNb) lvc)) <> None -> lookup k (wake_of (co_s aN') lvc) <> None).
 Proof.
-  intros HR HP HNc chg ticked Hrt Hri Hwi. cbv zeta.
+  intros HR HP HNc HS chg ticked Hrt Hri Hwi. cbv zeta.
   destruct nd_facts with (1 := Hsh) as [Hc_all [He_all [Hx_all [Hce [Hcx Hnd]]]]].
   pose proof (sh_ss1 _ _ _ _ _ _ Hsh) as S1. fold C1 in S1.
   pose proof (sh_ssc _ _ _ _ _ _ Hsh) as Sc. fold Cc in Sc.
   assert (Hlv : top <> lvc) by (intros E; apply (sh_lv _ _ _ _ _ _ Hsh); symmetry; exact E).
-  set (aFx := fold_left (step' devf innF top CF time rootsF []) (map dv inn) aF).
+  set (aFx := fold_left (step' devf (on_tick_level cfgF devf (S f)) top CF time rootsF []) (map (dki cfg lvc) inn) aF).
   unfold step'. cbn [fst snd]. fold chg. fold ticked. unfold aFx. clear aFx.
   destruct ticked eqn:Et.
   2: { (* not ticked *)
     rewrite in_fold_idle.
-    - split; [exact HR|]. split; [exact Hwi|]. split; [reflexivity|]. split; [discriminate|]. split; [reflexivity|]. split; [reflexivity | discriminate].
+    - split; [exact HR|]. split; [exact HS|]. split; [exact Hwi|]. split; [reflexivity|]. split; [discriminate|]. split; [reflexivity|]. split; [reflexivity | discriminate].
     - intros d Hd. split; [|apply (Hri eq_refl d Hd)].
       assert (Hnone : forall q', pd aF d q' = None).
       { intros q'. destruct (pd aF d q') as [v|] eqn:E; [|reflexivity]. exfalso.
@@ -666,7 +876,8 @@ Proof.
       specialize (Hnone k). rewrite pd_get_d, Eg in Hnone. cbn in Hnone. rewrite Pos.eqb_refl in Hnone. discriminate. }
   (* ticked *)
   destruct (Pos.eqb_spec c ext_id) as [E|_]; [contradiction|]. destruct (Pos.eqb_spec c exp_id) as [E|_]; [contradiction|].
-  cbn [on_tick_level]. rewrite (sh_in _ _ _ _ _ _ Hsh).
+  set (innF := on_tick_level cfgF devf (S f)).
+  cbn [on_tick_level]. subst innF. rewrite (sh_in _ _ _ _ _ _ Hsh), map_fst_dki.
   fold (due_of (co_s aNb)). fold (rootsC_of (co_s aNb)).
   set (rootsC := rootsC_of (co_s aNb)).
   set (s0 := log_tick (mark_ticked (set_int (set_wake (co_s aNb) lvc (filter (fun e : comp * Z => negb (Z.leb (snd e) time)) (wake_of (co_s aNb) lvc))) lvc []) lvc) lvc time rootsC).
@@ -707,20 +918,16 @@ Proof.
     - intros y Hy. cbn [aC1 co_s]. unfold s0.
       change (wake_of (log_tick (mark_ticked (set_int (set_wake ?x lvc ?w) lvc []) lvc) lvc time rootsC) top) with (wake_of (set_wake x lvc w) top).
       rewrite wake_of_set_wake_other by exact Hlv. apply (ro_wo _ _ HR y Hy). }
-  destruct (in_fold innC innF rootsC rootsF chg aNb inn aC1 aF (fun d H => H) (fun d Hd => Hrt eq_refl d Hd) HR2) as [HR3 [Ft [Fi Fk]]].
-  set (aC2 := fold_left (step' devf innC lvc Cc time rootsC chg) (map dv inn) aC1) in *.
-  set (aF' := fold_left (step' devf innF top CF time rootsF []) (map dv inn) aF) in *.
+  assert (HS1 : SUB (co_s aC1) (co_s aF)).
+  { intros y ly g Hy. destruct (Hsib y ly g Hy) as [_ [Hlvc _]]. cbn [aC1 co_s]. unfold s0.
+    apply (SR_frm_l _ _ (co_s aNb) (co_s aF) [] [lvc] _ (HS y ly g Hy) (prologue_frm _ _ _)); [intros z _ [] | intros l Hl [E|[]]; subst l; contradiction]. }
+  destruct (in_fold rootsC rootsF chg aNb inn aC1 aF (fun d H => H) (fun d Hd => Hrt eq_refl d Hd) HR2 HS1) as [HR3 [[Ft [Fi [Fk [Fkeys Fout]]]] HS3]].
+  unfold innC in *. clear innC.
+  set (aC2 := fold_left (step' devf (on_tick_level cfg devf f) lvc Cc time rootsC chg) (map (dki cfg lvc) inn) aC1) in *.
+  set (aF' := fold_left (step' devf (on_tick_level cfgF devf (S f)) top CF time rootsF []) (map (dki cfg lvc) inn) aF) in *.
   (* the expose pseudo component *)
-  assert (Hout : co_out aC2 = []).
-  { assert (Hgen : forall l a, co_out (fold_left (step' devf innC lvc Cc time rootsC chg) (map dv l) a) = co_out a \/ True) by auto.
-    clear Hgen. unfold aC2.
-    assert (Hg : forall l a, (forall x, In x l -> x <> exp_id) -> co_out (fold_left (step' devf innC lvc Cc time rootsC chg) (map dv l) a) = co_out a).
-    { induction l as [|x r IHl]; intros a Hne; [reflexivity|]. cbn [map fold_left]. rewrite IHl by (intros y Hy; apply Hne; right; exact Hy).
-      unfold step', dv. cbn [fst snd]. destruct (nonempty (get_d x (co_in a)) || memb x rootsC); [|reflexivity].
-      destruct (Pos.eqb x ext_id); [reflexivity|]. destruct (Pos.eqb_spec x exp_id) as [E|_]; [exfalso; apply (Hne x); [left; reflexivity | exact E]|].
-      destruct (dev_update devf (co_s a) x time (get_d x (co_in a))) as [[[s1 ch1] ca1] o1]. reflexivity. }
-    rewrite Hg; [reflexivity|]. intros x Hxi E. subst x. apply Hx_all. apply in_app_iff. right. apply in_app_iff. left. exact Hxi. }
-  set (aC3 := step' devf innC lvc Cc time rootsC chg aC2 (exp_id, KDev)).
+  assert (Hout : co_out aC2 = []) by (rewrite Fout; reflexivity).
+  set (aC3 := step' devf (on_tick_level cfg devf f) lvc Cc time rootsC chg aC2 (exp_id, KDev)).
   assert (EC3 : co_s aC3 = co_s aC2 /\ co_obs aC3 = co_obs aC2 /\ co_out aC3 = get_d exp_id (co_in aC2)).
   { unfold aC3, step'. cbn [fst snd]. destruct (nonempty (get_d exp_id (co_in aC2)) || memb exp_id rootsC) eqn:En.
     - destruct (Pos.eqb_spec exp_id ext_id) as [E|_]; [discriminate|]. rewrite Pos.eqb_refl. repeat split; reflexivity.
@@ -740,7 +947,7 @@ Proof.
   assert (PN' : forall y q, lookup2r (accumulate (co_in aNb) (route C1 c outc)) y q =
                             match lookup2r (route C1 c outc) y q with Some v => Some v | None => pd aNb y q end).
   { intros y q. apply accumulate_lookup. apply route_WFd. }
-  split; [|split; [|split; [|split; [|split; [|split]]]]].
+  split; [|split; [|split; [|split; [|split; [|split; [|split]]]]]].
   - constructor; cbn [co_s co_in co_out co_obs].
     + intros z Hz. unfold drel. rewrite Hdcsfin, Hcntfin. apply (r2_dev _ _ _ HR3 z Hz).
     + intros y Hy q. unfold pd at 2. cbn [co_in]. rewrite PN'.
@@ -759,6 +966,9 @@ Proof.
       * rewrite wake_of_set_wake, lookup_upd_other; [apply (r2_wo _ _ _ HR3 y Hy)|].
         intros E. subst y. apply Hc_all. apply in_outs_all in Hy. exact Hy.
       * apply (r2_wo _ _ _ HR3 y Hy).
+  - intros y ly g Hy. destruct (Hsib y ly g Hy) as [Htop _].
+    apply (SR_frm_l _ _ (co_s aC2) (co_s aF') [] [top] sfin (HS3 y ly g Hy)); [|intros z _ [] | intros l Hl [E|[]]; subst l; contradiction].
+    unfold sfin. destruct (min_wake _); [apply set_wake_frm | apply frm_refl].
   - intros d Hd. rewrite Hwfin_lvc. apply (r2_wi _ _ _ HR3 d Hd).
   - rewrite Hwfin_lvc. unfold sfin. destruct (min_wake (wake_of (co_s aC2) lvc)) as [w|].
     + rewrite wake_of_set_wake. apply lookup_upd_same.
@@ -769,13 +979,11 @@ Proof.
     rewrite Hk2, Fk. cbn [aC1 co_s]. unfold s0, log_tick, mark_ticked. cbn [s_ticked].
     destruct (memb lvc (s_ticked (set_int (set_wake (co_s aNb) lvc _) lvc []))) eqn:Em; [exact Em|]. cbn [memb existsb]. rewrite Pos.eqb_refl. reflexivity.
   - discriminate.
-  - assert (Hi2 : s_int sfin = s_int (co_s aC2)) by (unfold sfin; destruct (min_wake _); reflexivity).
-    unfold int_of. rewrite Hi2, Fi. cbn [aC1 co_s]. unfold s0, log_tick, mark_ticked, set_int. cbn [s_int]. apply get_d_upd_same.
-  - intros _ k Hk. rewrite Hwfin_lvc. unfold aC2. apply dev_fold_wake_keys.
-    + intros x Hxi. split; intros E; subst x; [apply He_all | apply Hx_all]; apply in_app_iff; right; apply in_app_iff; left; exact Hxi.
-    + cbn [aC1 co_s]. unfold s0.
-      change (wake_of (log_tick (mark_ticked (set_int (set_wake ?x lvc ?w) lvc []) lvc) lvc time rootsC) lvc) with (wake_of (set_wake x lvc w) lvc).
-      rewrite wake_of_set_wake. exact Hk.
+  - assert (Hi2 : int_of sfin lvc = int_of (co_s aC2) lvc) by (unfold sfin; destruct (min_wake _); reflexivity).
+    rewrite Hi2, Fi. cbn [aC1 co_s]. unfold int_of, s0, log_tick, mark_ticked, set_int. cbn [s_int]. apply get_d_upd_same.
+  - intros _ k Hk. rewrite Hwfin_lvc. apply Fkeys. cbn [aC1 co_s]. unfold s0.
+    change (wake_of (log_tick (mark_ticked (set_int (set_wake ?x lvc ?w) lvc []) lvc) lvc time rootsC) lvc) with (wake_of (set_wake x lvc w) lvc).
+    rewrite wake_of_set_wake. exact Hk.
 Qed.
 
 (* ---------- the whole tick *)
@@ -796,12 +1004,12 @@ Proof.
   destruct (Pos.eqb_spec exp_id ext_id) as [E|_]; [discriminate|]. rewrite Pos.eqb_refl. split; reflexivity.
 Qed.
 
-Lemma inline_top_order : l_order (level_of (inline cfg c lvc) top) = map (dk cfg) pre ++ map dv inn ++ map (dk cfg) post.
+Lemma inline_top_order : l_order (level_of (inline cfg c lvc) top) = map (dk cfg) pre ++ map (dki cfg lvc) inn ++ map (dk cfg) post.
 Proof.
   unfold level_of, inline. rewrite lookup_upd_same. cbn [l_order]. unfold inline_order, top_level, in_level.
   rewrite (sh_top _ _ _ _ _ _ Hsh), (sh_in _ _ _ _ _ _ Hsh).
   destruct nd_facts with (1 := Hsh) as [Hc_all _].
-  assert (Hdev : forall l, ~ In c l -> flat_map (fun ck : comp * ckind => if Pos.eqb (fst ck) c then map dv inn else [ck]) (map (dk cfg) l) = map (dk cfg) l).
+  assert (Hdev : forall l, ~ In c l -> flat_map (fun ck : comp * ckind => if Pos.eqb (fst ck) c then map (dki cfg lvc) inn else [ck]) (map (dk cfg) l) = map (dk cfg) l).
   { induction l as [|x r IH]; intros Hn; [reflexivity|]. cbn [map flat_map]. unfold dk at 1. cbn [fst].
     destruct (Pos.eqb_spec x c) as [E|_]; [exfalso; apply Hn; left; exact E|]. cbn [app]. f_equal. apply IH. intros Hi. apply Hn. right. exact Hi. }
   rewrite flat_map_app. cbn [flat_map fst]. rewrite Pos.eqb_refl.
@@ -810,73 +1018,6 @@ Qed.
 
 Lemma inline_top_conns : l_conns (level_of (inline cfg c lvc) top) = CF.
 Proof. unfold level_of, inline. rewrite lookup_upd_same. reflexivity. Qed.
-
-(* ---------- what the system's own step and the inlined devices leave untouched *)
-Definition frm (D : list comp) (Ls : list positive) (s s2 : sstate) : Prop :=
-  (forall z, ~ In z D -> dcs s2 z = dcs s z /\ lookup z (s_n s2) = lookup z (s_n s)) /\
-  (forall l, ~ In l Ls -> wake_of s2 l = wake_of s l /\ int_of s2 l = int_of s l /\ memb l (s_ticked s2) = memb l (s_ticked s)).
-
-Lemma frm_refl D Ls s : frm D Ls s s.
-Proof. split; intros; repeat split; reflexivity. Qed.
-
-Lemma frm_trans D Ls s1 s2 s3 : frm D Ls s1 s2 -> frm D Ls s2 s3 -> frm D Ls s1 s3.
-Proof.
-  intros [A1 B1] [A2 B2]. split.
-  - intros z Hz. destruct (A1 z Hz) as [X1 Y1]. destruct (A2 z Hz) as [X2 Y2]. split; congruence.
-  - intros l Hl. destruct (B1 l Hl) as [X1 [Y1 Z1]]. destruct (B2 l Hl) as [X2 [Y2 Z2]]. repeat split; congruence.
-Qed.
-
-Lemma SR_frm D L s s' D1 L1 D2 L2 s2 s2' :
-  SR D L s s' -> frm D1 L1 s s2 -> frm D2 L2 s' s2' ->
-  (forall z, In z D -> ~ In z D1 /\ ~ In z D2) -> (forall l, In l L -> ~ In l L1 /\ ~ In l L2) -> SR D L s2 s2'.
-Proof.
-  intros [A B] [F1 G1] [F2 G2] HD HL. split.
-  - intros z Hz. destruct (HD z Hz) as [N1 N2]. destruct (F1 z N1) as [X1 Y1]. destruct (F2 z N2) as [X2 Y2].
-    specialize (A z Hz). unfold drel in *. rewrite X1, X2, Y1, Y2. exact A.
-  - intros l Hl. destruct (HL l Hl) as [N1 N2]. destruct (G1 l N1) as [X1 [Y1 Z1]]. destruct (G2 l N2) as [X2 [Y2 Z2]].
-    destruct (B l Hl) as [P [Q R]]. repeat split; congruence.
-Qed.
-
-Lemma flat_map_single (l : list comp) : flat_map (fun ck : comp * ckind => match snd ck with KDev => [fst ck] | KSys _ => [] end) (map dv l) = l.
-Proof. induction l as [|x r IH]; [reflexivity|]. cbn [map flat_map dv snd fst app]. rewrite IH. reflexivity. Qed.
-
-(* the system's step in the nested run touches its inner devices, its own level and its top-level wakeup only *)
-Lemma sys_frmN rootsN aNb :
-  frm inn [lvc; top] (co_s aNb) (co_s (step' devf (on_tick_level cfg devf (S f)) top C1 time rootsN [] aNb (c, KSys lvc))).
-Proof.
-  unfold step'. cbn [fst snd]. destruct (nonempty _ || _); [|apply frm_refl].
-  destruct (Pos.eqb c ext_id); [apply frm_refl|]. destruct (Pos.eqb c exp_id); [apply frm_refl|].
-  pose proof (on_tick_level_framed cfg devf (S f) lvc time (get_d c (co_in aNb)) (co_s aNb)) as Fr.
-  destruct (on_tick_level cfg devf (S f) lvc time (get_d c (co_in aNb)) (co_s aNb)) as [[[s1 ch] ca] ob].
-  destruct Fr as [F1 [F2 _]]. cbn [co_s].
-  assert (HD : forall z, ~ In z inn -> ~ In z (devices_below cfg (S f) lvc)).
-  { intros z Hz Hi. apply Hz. cbn [devices_below] in Hi. rewrite (sh_in _ _ _ _ _ _ Hsh) in Hi.
-    apply in_flat_map in Hi. destruct Hi as [[d k] [Hd Hi]]. apply in_map_iff in Hd. destruct Hd as [d0 [E Hd]]. inversion E; subst. cbn in Hi. destruct Hi as [E2|[]]. subst. exact Hd. }
-  assert (HL : forall l, ~ In l [lvc; top] -> ~ In l (levels_below cfg (S f) lvc)).
-  { intros l Hl Hi. apply Hl. cbn [levels_below] in Hi. rewrite (sh_in _ _ _ _ _ _ Hsh) in Hi. destruct Hi as [E|Hi]; [left; exact E|].
-    apply in_flat_map in Hi. destruct Hi as [[d k] [Hd Hi]]. apply in_map_iff in Hd. destruct Hd as [d0 [E Hd]]. inversion E; subst. destruct Hi. }
-  split.
-  - intros z Hz. destruct (F1 z (HD z Hz)) as [X Y]. destruct ca; cbn; (split; [apply dcs_of_lookup; exact X | exact Y]).
-  - intros l Hl. destruct (F2 l (HL l Hl)) as [X [Y Z]].
-    assert (Hne : l <> top) by (intros E; apply Hl; right; left; symmetry; exact E).
-    destruct ca as [w|]; [|repeat split; assumption]. rewrite wake_of_set_wake_other by exact Hne. repeat split; assumption.
-Qed.
-
-(* the inlined devices in the flat run touch themselves and the top-level wakeups only *)
-Lemma inn_frmF innF rootsF : forall l aF, (forall d, In d l -> In d inn) ->
-  frm inn [top] (co_s aF) (co_s (fold_left (step' devf innF top CF time rootsF []) (map dv l) aF)).
-Proof.
-  induction l as [|d r IH]; intros aF Hl; [apply frm_refl|]. cbn [map fold_left].
-  eapply frm_trans; [|apply IH; intros x Hx; apply Hl; right; exact Hx].
-  destruct (inner_not_outsider cfg c lvc pre inn post Hsh d (Hl d (or_introl eq_refl))) as [_ [_ [Hde Hdx]]].
-  destruct (step'_dev devf time innF top CF rootsF [] aF d Hde Hdx) as [[_ E]|[_ [outs [ca [_ [_ [_ He]]]]]]]; unfold dv.
-  - rewrite E. apply frm_refl.
-  - split.
-    + intros z Hz. assert (Hne : z <> d) by (intros E; subst z; apply Hz; apply Hl; left; reflexivity).
-      split; [apply (de_other _ _ _ _ _ _ _ _ _ He z Hne) | apply (de_cnt_other _ _ _ _ _ _ _ _ _ He z Hne)].
-    + intros l0 Hl0. assert (Hne : l0 <> top) by (intros E; apply Hl0; left; symmetry; exact E).
-      unfold int_of. rewrite (de_wake_other _ _ _ _ _ _ _ _ _ He l0 Hne), (de_int _ _ _ _ _ _ _ _ _ He), (de_ticked _ _ _ _ _ _ _ _ _ He). repeat split; reflexivity.
-Qed.
 
 (* what relates the two simulations between ticks and what a tick needs to know about its roots *)
 Theorem tick_inline rootsN rootsF sN sF :
@@ -930,22 +1071,14 @@ Proof.
   cbn [a0N co_s] in G1, G2, G3, G4. cbn [a0F co_s] in G5.
   assert (Erc : rootsC_of (co_s a1N) = rootsC_of sN) by (unfold rootsC_of, due_of; rewrite G1, G3, G4; reflexivity).
   set (tk := nonempty (get_d c (co_in a1N)) || memb c rootsN).
-  destruct (sys_step innF rootsN rootsF a1N a1F HR1 (HP1 HP0) (HN1 HN0)) as [HR2 [HWI [HC [HT1 [HT0 [HI HKP]]]]]].
+  destruct (sys_step rootsN rootsF a1N a1F HR1 (HP1 HP0) (HN1 HN0) HS1) as [HR2 [HS2 [HWI [HC [HT1 [HT0 [HI HKP]]]]]]].
   - intros _ d Hd. rewrite Erc. apply (Hri d Hd).
   - fold tk. intros Et d Hd. apply orb_false_iff in Et. apply (Hidle (proj2 Et) d Hd).
   - fold tk. intros d Hd. rewrite G1, (G5 d Hd). destruct tk eqn:Et; [apply (Hwi d Hd)|].
     apply orb_false_iff in Et. rewrite <- (Hnodue (proj2 Et)). apply (Hwi d Hd).
   - fold tk in HC, HT1, HT0, HI, HKP. fold innN in HR2, HWI, HC, HT1, HT0, HI, HKP.
-    (* the siblings are not touched by the system's step / by the inlined devices *)
-    pose proof (sys_frmN rootsN a1N) as FrN. fold innN in FrN.
-    pose proof (inn_frmF innF rootsF inn a1F (fun d H => H)) as FrF.
     set (a2N := step' devf innN top C1 time rootsN [] a1N (c, KSys lvc)) in *.
-    set (a2F := fold_left (step' devf innF top CF time rootsF []) (map dv inn) a1F) in *.
-    assert (HS2 : SUB (co_s a2N) (co_s a2F)).
-    { intros y ly Hy Hk. destruct (Hsib y ly Hy Hk) as [Htop [Hlvc [HD _]]].
-      apply (SR_frm _ _ (co_s a1N) (co_s a1F) inn [lvc; top] inn [top] _ _ (HS1 y ly Hy Hk) FrN FrF).
-      - intros z Hz. assert (Hn : ~ In z inn) by (intros Hi; apply (proj1 (HD z Hz)); apply in_inn_all; exact Hi). split; exact Hn.
-      - intros l Hl. split; [intros [E|[E|[]]]; subst l; contradiction | intros [E|[]]; subst l; contradiction]. }
+    set (a2F := fold_left (step' devf innF top CF time rootsF []) (map (dki cfg lvc) inn) a1F) in *.
     destruct (out_fold rootsN rootsF post a2N a2F Hpost_in (fun x Hx => Hro x (Hpost_in x Hx)) HR2 HS2) as [HR3 [_ [_ [[K1 [K2 [K3 K4]]] [K5 HS3]]]]].
     fold innN innF in HR3, K1, K2, K3, K4, K5, HS3.
     set (a3N := fold_left (step' devf innN top C1 time rootsN []) (map (dk cfg) post) a2N) in *.
